@@ -4,19 +4,22 @@ from props.common import *  # noqa: F401,F403
 
 from contracts import inputs  # noqa: E402
 
-FUNCTIONS = [f"{M}:run_manager_from_cli"] + cli.STATUS + ["ghedesigner.validate:validate_input_file#body"] + inputs.NAME_SETTERS + [inputs.WORKER[-1], inputs.WORKER[0]] + cli.OUTPUT_METHODS
+FUNCTIONS = [f"{M}:run_manager_from_cli"] + cli.STATUS + ["ghedesigner.validate:validate_input_file#body"] + inputs.NAME_SETTERS + [inputs.WORKER[-1], inputs.WORKER[0]] + cli.OUTPUT_METHODS + cli.VALIDATORS
 NATIVE_FUNCTIONS = [f"{M}:run_manager_from_cli"]
-NATIVE_CASES = {"quick": 18, "thorough": 400}
+NATIVE_CASES = {"quick": 22, "thorough": 400}
 NATIVE_LIMIT_S = {"quick": 120, "thorough": 3000}
 CASE_TIMEOUT = 300
 LEVEL = "other"
 ASSUMPTIONS = [A_ENGINE,
                "A-CLICK: click (standalone mode) turns SystemExit(status) raised by the callback into the process exit status and an uncaught exception into exit status 1",
-               "section validators are used through caller views (0 or 1 per section); jsonschema.validate and the schema files are exercised by the bounded run-time contract only",
+               "validate_input_file uses the section validators through caller views (0 or 1 per section); their bodies are verified separately against the ASSUMED model of jsonschema.validate "
+               "(raises ValidationError exactly when the instance does not satisfy the schema); the schema files themselves are exercised by the bounded run-time contract only",
                "_run_manager_from_cli_worker is used through a caller view (status 0 or 1; invalid input refused) in the status logic; its body is verified separately (refuses an invalid file with "
                "status 1 before loading; returns 0 only after write_output_files) for the file shapes listed under C17"]
-NOT_PROVED = ["the eight section validators (schema semantics; upper-casing of fluid / flow-type / time-step names inside them): bounded run-time contract through the real entry point; "
-              "case-insensitivity of the pipe-arrangement and design-method names in the loader is proved (set_pipe_type / set_design_geometry_type in three spellings each)",
+NOT_PROVED = ["schema semantics (what jsonschema.validate accepts for a given schema file; e.g. that the draft-04 validator ignores `const`): bounded run-time contract through the real entry point. "
+              "The validators themselves are under contract: validate_schema_instance returns 0 exactly when jsonschema accepts and 1 otherwise; every section validator returns the verdict of "
+              "its own schema file; names are upper-cased first (three spellings each of the pipe arrangements and design methods, of fluid / flow-type / time-step names) and unknown "
+              "arrangement / method names are refused with 1 - for the spellings listed (a finite sample of an infinite set of strings)",
               "'exits zero only when the output files were written' for full runs: the worker returns 0 only after prepare_results and write_output_files returned normally (verified body), and each of "
               "them returns normally only with a design / with results (verified bodies; OutputManager(None, ...) raising AttributeError is Python semantics, assumed); that write_all_output_files "
               "writes every file when it returns normally is checked by the bounded runs (files inspected), as are inputs that pass the schemas but cannot be designed for (no load list, empty list)"]
